@@ -99,9 +99,15 @@ func VerifSetWaitDuration(f func(ctx context.Context, d time.Duration)) (old fun
 // VerifSetCalcExponentialRetry replaces the package's delay calculation, returning the previous one.
 func VerifSetCalcExponentialRetry(f func(d time.Duration, c uint32) time.Duration) (old func(d time.Duration, c uint32) time.Duration) {
 	old = calcExponentialRetry
-	calcExponentialRetry = f
+	if f != nil {
+		calcExponentialRetry = f
+	}
 	return
 }
+
+// VerifCalcExponentialRetry and VerifWaitDuration call the package's current implementations.
+func VerifCalcExponentialRetry(d time.Duration, c uint32) time.Duration { return calcExponentialRetry(d, c) }
+func VerifWaitDuration(ctx context.Context, d time.Duration)             { waitDuration(ctx, d) }
 
 // VerifCleanupLogic exposes the unexported clamp-and-shift logic of the cleaner for a freshly built buffer with the
 // given contents, relative consumer offsets and cleaner; it returns the resulting base offset and size.
